@@ -227,8 +227,25 @@ def _pagination(prop, tier):
                        stdout=subprocess.PIPE, stderr=subprocess.PIPE, text=True, timeout=3000)
     if p.returncode != 0:
         raise vlib.ToolError("drive_pagination failed: %s" % p.stderr[-2000:])
-    neps, nev, rejects, states = vlib.validate_trace_episodes(
-        prop + "-trace", "TracePagination.tla", "TracePagination.cfg", path, max_rejects=12)
+    # The episodes that speak about this property are validated first (scans for C15, token / limit cases
+    # for C14), so that rejections belonging to the other property cannot use up the rejection budget.
+    with open(path) as f:
+        eps = vlib.split_episodes([x for x in f.read().split("\n") if x.strip()])
+    is_scan = lambda ep: '"kind":"scan"' in ep[0]
+    first = [e for e in eps if is_scan(e) == (prop == "C15")]
+    second = [e for e in eps if is_scan(e) != (prop == "C15")]
+    neps = nev = states = 0
+    rejects = []
+    for part, group in (("own", first), ("other", second)):
+        if not group:
+            continue
+        ppath = path + "." + part
+        with open(ppath, "w") as f:
+            f.write("\n".join(x for e in group for x in e) + "\n")
+        a, b, c, d = vlib.validate_trace_episodes(
+            prop + "-trace-" + part, "TracePagination.tla", "TracePagination.cfg", ppath, max_rejects=12)
+        neps, nev, states = neps + a, nev + b, states + d
+        rejects += c
     c15_events = {"page", "scan_end", "scan_runaway"}
     other = 0
     for rj in rejects:
